@@ -31,9 +31,9 @@ KNOWN = os.path.join(ROOT, "known_findings.txt")
 VERIF_FAIL_PATTERNS = [
     "postcondition not satisfied", "precondition not satisfied", "assertion failed",
     "possible arithmetic underflow/overflow", "possible division by zero", "invariant not satisfied",
-    "loop invariant not", "decreases not satisfied", "could not prove termination", "index out of bounds",
+    "loop invariant not", "decreases not satisfied", "could not prove termination",
     "possible bit shift underflow/overflow", "unable to prove assertion safety condition",
-    "call to function", "recommendation not met", "failed to prove", "may fail", "not satisfied",
+    "assertion not satisfied", "failed to prove", "cannot show", "may fail to meet", "not proved",
 ]
 UNDECIDED_PATTERNS = ["rlimit", "Resource limit", "timed out", "solver"]
 
@@ -115,6 +115,8 @@ def classify_diag(d):
         return "undecided"
     if d.get("level") == "warning":
         return "warning"
+    if d.get("code"):
+        return "compile"  # rustc error code (type / trait / borrow error): not a proof obligation
     if any(p in msg for p in VERIF_FAIL_PATTERNS):
         return "verif"
     return "compile"
